@@ -36,15 +36,20 @@ SCRATCH = CACHE if OUT == ROOT else OUT     # per-repo scratch space (locks, pro
 def log(*a):
     print(*a, file=sys.stderr, flush=True)
 
-def run(cmd, timeout=600, cwd=None, env=None, input=None):
-    """-> (rc, stdout+stderr text).  rc = 124 on timeout."""
+def run(cmd, timeout=600, cwd=None, env=None, input=None, mem_gb=None):
+    """-> (rc, stdout+stderr text).  rc = 124 on timeout.  mem_gb: address-space limit for the child."""
     e = dict(os.environ)
     e.update({'CARGO_NET_OFFLINE': 'true', 'LC_ALL': 'C'})
     if env: e.update(env)
+    pre = None
+    if mem_gb:
+        import resource
+        lim = int(mem_gb * (1 << 30))
+        pre = lambda: resource.setrlimit(resource.RLIMIT_AS, (lim, lim))
     try:
         p = subprocess.run(cmd, cwd=cwd, env=e, input=input, stdout=subprocess.PIPE,
                            stderr=subprocess.STDOUT, timeout=timeout, text=True,
-                           shell=isinstance(cmd, str), errors='replace')
+                           shell=isinstance(cmd, str), errors='replace', preexec_fn=pre)
         return p.returncode, p.stdout
     except subprocess.TimeoutExpired as ex:
         out = ex.stdout or ''
@@ -186,7 +191,7 @@ def coq_eval(name, body, timeout=600):
     d = os.path.join(COQ, 'Cases'); os.makedirs(d, exist_ok=True)
     p = os.path.join(d, name + '.v')
     open(p, 'w').write(body)
-    rc, out = run(['coqc', '-noglob', '-Q', '.', 'FB', '-w', '-all', 'Cases/%s.v' % name], cwd=COQ, timeout=timeout)
+    rc, out = run(['coqc', '-noglob', '-Q', '.', 'FB', '-w', '-all', 'Cases/%s.v' % name], cwd=COQ, timeout=timeout, mem_gb=6)
     for ext in ('.vo', '.vok', '.vos', '.glob'):
         try: os.remove(os.path.join(d, name + ext))
         except FileNotFoundError: pass
@@ -264,7 +269,7 @@ TRUSTED_COMMON = [
 IDX_FALSE = ('Definition idx_false (l : list bool) : list N := map fst (filter (fun p => negb (snd p)) '
              '(combine (map N.of_nat (seq 0 (List.length l))) l)).\n')
 
-def coq_check_cases(name, header, exprs, shard=250, timeout=1200):
+def coq_check_cases(name, header, exprs, shard=250, timeout=400):
     """exprs: Coq terms of type bool (model run on the case compared with what the implementation did).
     Evaluated by vm_compute in parallel shards.  -> (failing_indices, error_logs)"""
     from concurrent.futures import ThreadPoolExecutor
